@@ -1822,8 +1822,12 @@ func (d *DFA) byteToClass(b byte) byte {
 // For reverse search, a "match" means the reverse DFA reached a match state,
 // which corresponds to finding the START of a match in the original direction.
 func (d *DFA) SearchReverse(cache *DFACache, haystack []byte, start, end int) int { //nolint:funlen // 4x unrolled reverse DFA search
-	if end <= start || end > len(haystack) {
+	if end < start || end > len(haystack) {
 		return -1
+	}
+	if end == start {
+		// Empty region: only an empty match (at start) is possible
+		return d.nfaFallbackReverse(cache, haystack, start, end)
 	}
 
 	// Get start state for reverse search
@@ -2000,8 +2004,12 @@ const SearchReverseLimitedQuadratic = -2
 //   - -2 (SearchReverseLimitedQuadratic): scan was limited by minStart, caller should
 //     retry with a different strategy
 func (d *DFA) SearchReverseLimited(cache *DFACache, haystack []byte, start, end, minStart int) int {
-	if end <= start || end > len(haystack) {
+	if end < start || end > len(haystack) {
 		return -1
+	}
+	if end == start {
+		// Empty region: only an empty match (at start) is possible
+		return d.nfaFallbackReverse(cache, haystack, start, end)
 	}
 
 	currentState := d.getStartStateForReverse(cache, haystack, end)
@@ -2094,8 +2102,12 @@ func (d *DFA) SearchReverseLimited(cache *DFACache, haystack []byte, start, end,
 //
 // Zero-allocation implementation that reads bytes in reverse order.
 func (d *DFA) IsMatchReverse(cache *DFACache, haystack []byte, start, end int) bool {
-	if end <= start || end > len(haystack) {
+	if end < start || end > len(haystack) {
 		return false
+	}
+	if end == start {
+		// Empty region: only an empty match (at start) is possible
+		return d.nfaFallbackReverse(cache, haystack, start, end) >= 0
 	}
 
 	currentState := d.getStartStateForReverse(cache, haystack, end)
